@@ -3,10 +3,10 @@
    the real code did for each of its keys:
      [id, fam, g = <<[k, e], ...>>, o = <<[deps, get, exec, call, pdeps, pcall], ...>>]
    o[i] belongs to key g[i].k.  TLC decides every key against module TaskSpec.  The
-   verdict of a rejected record is one string with one character per key: the
-   base-64 digit of the bit mask of its broken clauses (Deps = 1, Get = 2, Exec = 4,
-   Call = 8, PickleDeps = 16, PickleCall = 32) - kept that short because TLC wraps
-   printed values at 80 columns.                                                  *)
+   verdict of a rejected record is one string with two characters per key: the two
+   base-64 digits (low, high) of the bit mask of its broken clauses (Deps = 1, Get = 2,
+   Exec = 4, Call = 8, PickleDeps = 16, PickleCall = 32, LegacyDeps = 64) - kept that
+   short because TLC wraps printed values at 80 columns.                                                  *)
 EXTENDS TaskSpec, TraceIO
 
 \* JSON has no sets: observed set / dict values arrive as sequences
@@ -22,13 +22,13 @@ FromJ(v) ==
 
 GraphOf(gs) == [k \in {gs[i].k : i \in DOMAIN gs} |-> gs[CHOOSE i \in DOMAIN gs : gs[i].k = k].e]
 
-ObsIn(o) == [deps |-> Range(o.deps), get |-> FromJ(o.get), exec |-> FromJ(o.exec), call |-> FromJ(o.call),
+ObsIn(o) == [deps |-> Range(o.deps), ldeps |-> Range(o.ldeps), kdeps |-> Range(o.kdeps), get |-> FromJ(o.get), exec |-> FromJ(o.exec), call |-> FromJ(o.call),
              pdeps |-> Range(o.pdeps), pcall |-> FromJ(o.pcall)]
 
 Digits == <<"0", "1", "2", "3", "4", "5", "6", "7", "8", "9", "a", "b", "c", "d", "e", "f", "g", "h", "i", "j", "k", "l", "m", "n", "o", "p", "q", "r", "s", "t", "u", "v", "w", "x", "y", "z", "A", "B", "C", "D", "E", "F", "G", "H", "I", "J", "K", "L", "M", "N", "O", "P", "Q", "R", "S", "T", "U", "V", "W", "X", "Y", "Z", "+", "-">>
 Bit(S, c, w) == IF c \in S THEN w ELSE 0
 Mask(S) == Bit(S, "Deps", 1) + Bit(S, "Get", 2) + Bit(S, "Exec", 4) + Bit(S, "Call", 8)
-           + Bit(S, "PickleDeps", 16) + Bit(S, "PickleCall", 32)
+           + Bit(S, "PickleDeps", 16) + Bit(S, "PickleCall", 32) + Bit(S, "LegacyDeps", 64)
 
 RECURSIVE Concat(_)
 Concat(ss) == IF ss = <<>> THEN "" ELSE Head(ss) \o Concat(Tail(ss))
@@ -38,7 +38,7 @@ Bad(r) ==
   IF ~(GClosed(g) /\ GAcyclic(g) /\ Len(r.o) = Len(r.g)) THEN {"InputNotWellFormed"}
   ELSE LET masks == [i \in DOMAIN r.g |-> Mask(KeyBroken(g, r.g[i].k, ObsIn(r.o[i])))]
        IN IF \A i \in DOMAIN masks : masks[i] = 0 THEN {}
-          ELSE {Concat([i \in DOMAIN masks |-> Digits[masks[i] + 1]])}
+          ELSE {Concat([i \in DOMAIN masks |-> Digits[(masks[i] % 64) + 1] \o Digits[(masks[i] \div 64) + 1]])}
 
 Init == TInit
 Next == TNext(Bad)
